@@ -365,8 +365,8 @@ class Unit:
         tr = subst_text(im.trait, self.subst) if im.trait else None
         st = subst_text(im.selfty, self.subst)
         if tr:
-            return 'impl%s %s for %s' % (g, tr, st)
-        return 'impl%s %s' % (g, st)
+            return self.fix_assoc('impl%s %s for %s' % (g, tr, st))
+        return self.fix_assoc('impl%s %s' % (g, st))
 
     def emit_impl(self, im: Impl, ms, used_traits, line0):
         src = self.src
@@ -413,12 +413,13 @@ class Unit:
                 raise ExtractError('un-contracted function in unit %s: %s :: %s' % (self.name, im.header, f.name))
             if tn in OP_TRAITS and c.spec is not None:
                 spec_impl = self.spec_impl(im, f, c)
-            if tn == 'From' and f.name == 'from' and c.spec is not None:
+            if tn == 'From' and f.name == 'from':
                 g = subst_text(impl_generics(im, self.subst), self.subst)
                 st = subst_text(im.selfty, self.subst)
                 src_ty = subst_text(trait_args(im.trait), self.subst)
-                spec_impl = ('impl%s FromSpecImpl<%s> for %s {\n    open spec fn obeys_from_spec() -> bool { true }\n'
-                             '    open spec fn from_spec(v: %s) -> %s { %s }\n}\n') % (g, src_ty, st, src_ty, st, c.spec)
+                spec_impl = self.fix_assoc(('impl%s FromSpecImpl<%s> for %s {\n    open spec fn obeys_from_spec() -> bool { %s }\n'
+                             '    open spec fn from_spec(v: %s) -> %s { %s }\n}\n') % (
+                                 g, src_ty, st, 'true' if c.spec is not None else 'false', src_ty, st, c.spec if c.spec is not None else 'arbitrary()'))
             if tn == 'PartialOrd' and f.name == 'partial_cmp' and c.spec is not None:
                 g = subst_text(impl_generics(im, self.subst), self.subst)
                 st = subst_text(im.selfty, self.subst)
@@ -479,6 +480,12 @@ class Unit:
         c2.tail = sub(c.tail)
         return c2
 
+    def fix_assoc(self, text):
+        """`A::Unitless` after the substitution of A (rule R3): the scalar type"""
+        if 'A' in self.subst:
+            text = text.replace(self.subst['A'] + '::Unitless', 'Sc')
+        return text
+
     def obligation_name(self, im, f):
         if im is None:
             return '%s::%s' % (f.module, f.name)
@@ -506,6 +513,7 @@ class Unit:
             spec += '\n' + indent + '    ensures ' + ', '.join(c.ensures) + ','
         mark = (indent + '#[verifier::external_body] // ASSUMED-CONTRACT: proved in the unit that owns this function\n') if assumed else ''
         text = mark + indent + ' '.join(quals + [sig]) + spec + '\n' + indent + body + '\n'
+        text = self.fix_assoc(text)
         lo = line0
         hi = line0 + text.count('\n') - 1
         name = self.obligation_name(im, f)
@@ -526,9 +534,11 @@ class Unit:
         if 'A' in self.subst:
             _, _, params, _, _ = self.src.fn_sig_parts(f, {})
             for prm in params:
-                m = re.fullmatch(r'(?:mut\s+)?([A-Za-z_][A-Za-z0-9_]*)\s*:\s*A', prm.strip())
-                if m:
+                m = re.fullmatch(r'(?:mut\s+)?([A-Za-z_][A-Za-z0-9_]*)\s*:\s*(A|Euler<A>)', prm.strip())
+                if m and m.group(2) == 'A':
                     body = re.sub(r'\b%s\.into\(\)' % m.group(1), '<%s as Into<Rad<Sc>>>::into(%s)' % (self.subst['A'], m.group(1)), body)
+                elif m:
+                    body = re.sub(r'\b(%s\.[xyz])\.into\(\)' % m.group(1), r'<%s as Into<Rad<Sc>>>::into(\1)' % self.subst['A'], body)
         if c.closures:
             body = annotate_closures(body, c.closures, f)
         if c.pre:
